@@ -211,7 +211,10 @@ func (hc *HashChain) Fill(argb []uint32, quality int, xsize, ysize int, lowEffor
 	// Decide between parallel and serial second pass.
 	numWorkers := runtime.GOMAXPROCS(0)
 	numWorkers = verifhook.Workers("ll.hashchain", numWorkers)
-	if numWorkers > 1 && size > 50000 && !lowEffort {
+	// The two second-pass algorithms find different (both valid) matches, so
+	// the choice must depend on the input only, never on GOMAXPROCS: the
+	// range-partitioned pass gives the same result for any worker count.
+	if size > 50000 && !lowEffort {
 		hc.fillParallel(argb, xsize, size, iterMax, winSize, numWorkers)
 	} else {
 		hc.fillSerial(argb, xsize, size, iterMax, lowEffort, winSize)
